@@ -53,6 +53,7 @@ def units(tier, seed):
     u.append(dict(layer="manager"))
     u.append(dict(layer="prism"))
     u.append(dict(layer="elevated"))
+    u.append(dict(layer="mixed"))
     return u
 
 
@@ -104,6 +105,13 @@ def run_unit(unit, acc):
             for s0, s100 in ((1.0, 3.0), (1.0, 1.0), (2.0, 0.5), (1.0, 6.0)):
                 for minp in (1, 40):
                     check_case(dict(layer="elevated", zc=zc, s0=s0, s100=s100, minp=minp), acc)
+    elif unit["layer"] == "mixed":
+        # a small object whose centre is nearer than the centre of a much larger one that reaches further towards the sensor, with all
+        # points closer than both centres
+        for sc_i in range(len(MIXED)):
+            for s0, s100 in ((1.0, 1.0), (1.0, 1.5), (1.3, 0.8)):
+                for order in (0, 1):
+                    check_case(dict(layer="mixed", scene=sc_i, s0=s0, s100=s100, minp=1, order=order), acc)
     elif unit["layer"] == "prism":
         for pi in range(len(POLYS)):
             for rev in (False, True):
@@ -117,6 +125,13 @@ def run_unit(unit, acc):
                         if tu is None and where == "frame":
                             continue
                         check_case(dict(layer="manager", style=style, s0=s0, s100=s100, minp=minp, target_uuids=tu, where=where), acc)
+
+
+MIXED = [
+    [(16.0, 0.0, 0.0, (2.5, 16.0, 3.0)), (12.0, 5.0, 0.3, (0.6, 0.6, 1.7))],
+    [(0.0, 20.0, 1.5707963, (2.5, 24.0, 3.0)), (-6.0, 11.0, 0.0, (1.0, 1.0, 1.0)), (5.0, 13.5, 0.5, (0.6, 0.6, 1.7))],
+    [(-14.0, -14.0, 0.7853981, (3.0, 30.0, 3.0)), (-9.5, -2.0, 0.2, (2.0, 4.0, 1.5))],
+]
 
 
 def _rows(a):
@@ -343,8 +358,54 @@ def check_case(case, acc):
             bad("prism:inside-rows", "points inside a %s prism differ from the even-odd test: %d reported, %d expected" % ("clockwise" if case["reversed"] else "as-listed", len(got), len(want)))
         if sorted(_rows(inside) + _rows(outside)) != _rows(PC):
             bad("prism:partition", "inside and outside selections of a prism do not partition the cloud (%d + %d of %d)" % (len(inside), len(outside), len(PC)))
+        # points whose y coordinate is bit-identical to a vertex's y, left and right of the polygon and just inside it (a horizontal ray
+        # through a vertex), plus the vertex rows shifted by one ulp
+        key = ("vrow", case["poly"])
+        if key not in _EPC:
+            xs = [v[0] for v in POLYS[case["poly"]]]
+            rows = []
+            for vx, vy in POLYS[case["poly"]]:
+                for yy in (float(vy), float(np.nextafter(vy, 1e9)), float(np.nextafter(vy, -1e9))):
+                    rows += [(min(xs) - 5.0, yy, 0.5, 1.0), (max(xs) + 5.0, yy, 0.5, 1.0), (min(xs) - 0.37, yy, 0.5, 1.0), (0.5 * (min(xs) + max(xs)) + 0.123, yy, 0.5, 1.0)]
+            _EPC[key] = np.array(rows)
+        PV = _EPC[key]
+        acc.exec()
+        inside_v = crop_pointcloud(PV, area, inside=True)
+        pinv, pdistv = _poly_mask(PV, poly)
+        keepv = (pdistv > 1e-9) & (PV[:, 2] > z0 + 1e-9) & (PV[:, 2] < z1 - 1e-9)
+        if z0 < 0.5 < z1:
+            wantv = sorted(tuple(np.round(p_, 12)) for p_ in PV[keepv & pinv])
+            ambv = {tuple(np.round(p_, 12)) for p_ in PV[~keepv]}
+            gotv = [r_ for r_ in sorted(tuple(np.round(p_, 12)) for p_ in inside_v) if r_ not in ambv]
+            if gotv != wantv:
+                bad("prism:vertex-row", "points on the horizontal lines through the polygon's vertices: %d reported inside, %d are inside (first difference %s)" % (
+                    len(gotv), len(wantv), sorted(set(gotv) ^ set(wantv))[:2]))
         acc.state(("prism", case["poly"], case["reversed"], tuple(case["z"]), len(inside)), nontrivial=0 < len(inside) < len(PC))
         acc.outcome(("prism", len(inside)))
+    elif lay == "mixed":
+        boxes = list(MIXED[case["scene"]])
+        if case["order"]:
+            boxes = list(reversed(boxes))
+        key = ("mixed", case["scene"])
+        if key not in _EPC:
+            big = MIXED[case["scene"]][0]
+            ux, uy = big[0] / math.hypot(big[0], big[1]), big[1] / math.hypot(big[0], big[1])
+            near = math.hypot(big[0], big[1]) - big[3][1] / 2      # where the large box begins along the line of sight
+            _EPC[key] = np.array([(ux * (near + a) - uy * b, uy * (near + a) + ux * b, z, 1.0) for a in (-2.1, -0.6, 0.4, 1.3, 2.2) for b in (-2.0, -0.8, 0.1, 0.9, 2.3)
+                                  for z in (0.1, 0.5)])
+        PC = _EPC[key]
+        gts = [G.mk3d(_box_spec(b[:2], b[2], b[3], z=0.5, vis=None, uuid="g%d" % i)) for i, b in enumerate(boxes)]
+        cfg = SensingFrameConfig(None, case["s0"], case["s100"], case["minp"])
+        fr = SensingFrameResult(cfg, 100, "0")
+        zr = (-2.0, 3.0)
+        polys = [[(-40, -40), (40, -40), (40, 40), (-40, 40)]]
+        nd = [crop_pointcloud(PC, [(x, y, zr[0]) for x, y in polys[0]] + [(x, y, zr[1]) for x, y in polys[0]])]
+        acc.exec()
+        fr.evaluate_frame(gts, PC, nd)
+        acc.compared()
+        out = _check_frame_result(case, fr, gts, boxes, 0.5, case["s0"], case["s100"], case["minp"], PC, polys, zr, acc, bad)
+        acc.state(("mixed", case["scene"], case["s0"], case["s100"], case["order"], tuple(out)), nontrivial=True)
+        acc.outcome(tuple(sorted(out)))
     elif lay == "elevated":
         zc = case["zc"]
         boxes = [(3.0, 4.0, 0.3, (2.0, 4.0, 2.0)), (-2.0, 1.5, -1.2, (1.0, 1.0, 1.0))]
